@@ -224,6 +224,26 @@ AssetsOf(c) ==
     [] c = 5 -> [js |-> "J5", css |-> "S5", mjs |-> <<"f5.js">>, mcss |-> <<>>, base |-> 0, ext |-> TRUE]
     [] OTHER -> NoAssets
 LibA == [c \in 1..Len(Lib) |-> Lib[c] @@ [assets |-> AssetsOf(c)]]
+\* C04, second asset alphabet of the same library (exported beside the first: assetsB / depsB; the pages and their
+\* instances do not depend on assets):
+\*  - assets that arrive ONLY through inheritance: a subclass whose own Media class is empty (c2, mform = how the
+\*    empty Media is spelled), Media.extend = [classes] without own files (c3: through c2 from c1; c15: from a
+\*    "theme" class c4 that no page renders, NOT from its parent c1), a subclass without any Media class of a class
+\*    whose Media only lists where to inherit from (c5), extend = True written out (c16);
+\*  - inline code texts over an alphabet with backslash sequences (\n \d \1 \g<0> \\ \201C, trailing backslash),
+\*    which must arrive unchanged.
+AssetsB(c) ==
+  CASE c = 1 -> [js |-> "J1 \\n \\d+ \\1", css |-> "S1 \\201C \\\\ \\n", mjs |-> <<"f1.js", "shared.js">>, mcss |-> <<"a1.css">>,
+                 base |-> 0, ext |-> TRUE]
+    [] c = 2 -> [js |-> "J2 \\g<0> \\\\", css |-> " ", mjs |-> <<>>, mcss |-> <<>>, base |-> 1, ext |-> TRUE, mform |-> "bare"]
+    [] c = 3 -> [js |-> "", css |-> "S3 \\d \\g<1>", mjs |-> <<>>, mcss |-> <<>>, base |-> 0, ext |-> TRUE, extl |-> <<2>>]
+    [] c = 4 -> [js |-> "J4", css |-> "", mjs |-> <<"theme.js">>, mcss |-> <<"theme.css", "print.css">>, base |-> 0, ext |-> TRUE,
+                 cssdict |-> TRUE]
+    [] c = 5 -> [js |-> "J5 \\", css |-> "S5 \\1", mjs |-> <<>>, mcss |-> <<>>, base |-> 3, ext |-> TRUE]
+    [] c = 15 -> [js |-> " ", css |-> " ", mjs |-> <<"f15.js">>, mcss |-> <<>>, base |-> 1, ext |-> TRUE, extl |-> <<4>>]
+    [] c = 16 -> [js |-> "J16 \\n", css |-> " ", mjs |-> <<>>, mcss |-> <<>>, base |-> 4, ext |-> TRUE, mform |-> "explicit"]
+    [] OTHER -> NoAssets
+LibB == [c \in 1..Len(Lib) |-> Lib[c] @@ [assets |-> AssetsB(c)]]
 Prog(mode, devs) == [mode |-> mode, devs |-> devs, dyn |-> FALSE, pyctx |-> FALSE, ctx |-> Ctx, comps |-> LibA, page |-> stack[1].kids]
 
 \* Theorems of the reference semantics, checked on every complete page:
@@ -284,11 +304,13 @@ Opts == [format |-> "TXT", charset |-> "UTF-8", openOptions |-> <<"WRITE", "CREA
 \* the library and page context, written once (initial state)
 ExportLib ==
   n = 0 /\ Len(stack) = 1 /\ stack[1].kids = <<>> =>
-    Serialize(ToJson([comps |-> LibA, ctx |-> Ctx]) \o "\n", IOEnv.LIB, Opts).exitValue = 0
+    Serialize(ToJson([comps |-> LibA, ctx |-> Ctx, assetsB |-> [c \in 1..Len(Lib) |-> AssetsB(c)]]) \o "\n",
+              IOEnv.LIB, Opts).exitValue = 0
 Export ==
   Complete /\ HasComp(stack[1].kids, 1) =>
     LET r == Run(Prog(Mode, <<>>)) IN
     Serialize(ToJson([page |-> stack[1].kids, mode |-> Mode, out |-> r.out, err |-> r.err, errs |-> r.errs,
                       zone |-> r.zone, insts |-> r.insts, elems |-> r.elems, marks |-> r.marks,
-                      deps |-> Deps(Prog(Mode, <<>>), r.insts)]) \o "\n", IOEnv.OUT, Opts).exitValue = 0
+                      deps |-> Deps(Prog(Mode, <<>>), r.insts),
+                      depsB |-> Deps([Prog(Mode, <<>>) EXCEPT !.comps = LibB], r.insts)]) \o "\n", IOEnv.OUT, Opts).exitValue = 0
 =============================================================================
